@@ -423,13 +423,33 @@ theorem Inv.leafDone {s : St} (h : Inv s) (a : Bool) (k : Nat) (o : Outcome) (hc
   · exact h.leafDone' o hc hnf
   · exact h.schedHop k o hc hnf
 
+theorem Inv.signal {s : St} (h : Inv s) (o : Outcome) (hf : s.frames = []) (hnf : s.ctl ≠ .finished) :
+    Inv (signal s o) := by
+  unfold Coro.signal
+  simp only []
+  split <;> split
+  · exact h.same [.tokRegs 0, .root o] rfl rfl rfl rfl (by simp [emit]) (by simp [Out.frame])
+      (fun _ => Or.inr (by rw [hf]; simp)) (fun _ => hf) (by simp [hnf, rootTrace])
+  · exact h.same [.tokRegs s.tokRegs, .root o] rfl rfl rfl rfl (by simp [emit]) (by simp [Out.frame])
+      (fun _ => Or.inr (by rw [hf]; simp)) (fun _ => hf) (by simp [hnf, rootTrace])
+  · rename_i h1 h2; exact absurd h2.1 h1
+  · exact h.same [.root o] rfl rfl rfl rfl (by simp [emit]) (by simp [Out.frame])
+      (fun _ => Or.inr (by rw [hf]; simp)) (fun _ => hf) (by simp [hnf, rootTrace])
+
 theorem Inv.rootDone {s : St} (h : Inv s) (o : Outcome) (hf : s.frames = []) (hnf : s.ctl ≠ .finished) :
     Inv (rootDone s o) := by
+  have h0 : Inv (if s.adapter then s else { s with tokRegs := 0 }) := by
+    split
+    · exact h
+    · exact h.same [] rfl rfl rfl rfl (by simp) (by simp) (fun he => Or.inl he) h.fin (by simp [rootTrace])
+  have hf0 : (if s.adapter then s else { s with tokRegs := 0 }).frames = [] := by split <;> exact hf
+  have hnf0 : (if s.adapter then s else { s with tokRegs := 0 }).ctl ≠ .finished := by split <;> exact hnf
   unfold Coro.rootDone
+  simp only []
+  generalize (if s.adapter then s else { s with tokRegs := 0 }) = s0 at h0 hf0 hnf0 ⊢
   split
-  · exact h.same [] rfl rfl rfl rfl (by simp) (by simp) (fun _ => Or.inr (by rw [hf]; simp)) (fun _ => hf) (by simp [hnf, rootTrace])
-  · exact h.same [.root o] rfl rfl rfl rfl rfl (by simp [Out.frame]) (fun _ => Or.inr (by rw [hf]; simp)) (fun _ => hf)
-      (by simp [hnf, rootTrace])
+  · exact h0.same [] rfl rfl rfl rfl (by simp) (by simp) (fun _ => Or.inr (by rw [hf0]; simp)) (fun _ => hf0) (by simp [hnf0, rootTrace])
+  · exact h0.signal o hf0 hnf0
 
 theorem Inv.beginExit {s : St} (h : Inv s) {fr : Frame} {rest : List Frame} (hf0 : s.frames = fr :: rest) (o : Outcome) :
     Inv (beginExit s fr rest o) :=
@@ -459,6 +479,24 @@ theorem Inv.step {s : St} (h : Inv s) : Inv (step specs s) := by
       · exact h.updTop (fr' := { fr with kont := k }) [] hf0 rfl rfl rfl rfl (by simp) rfl
           (by simp) (by simp [regTrace]) (by simp [cleanupTraceOf]) (by simp [deadCount, deadTrace])
           hhist (fun _ => hran) (by rw [hc]; rfl) (by simp [rootTrace])
+    · rename_i k hk
+      split
+      · exact h.updTop (fr' := { fr with kont := k }) [] hf0 rfl rfl rfl rfl (by simp) rfl
+          (by simp) (by simp [regTrace]) (by simp [cleanupTraceOf]) (by simp [deadCount, deadTrace])
+          hhist (fun he => by cases he) rfl (by simp [rootTrace])
+      · exact h.updTop (fr' := { fr with kont := k }) [] hf0 rfl rfl rfl rfl (by simp) rfl
+          (by simp) (by simp [regTrace]) (by simp [cleanupTraceOf]) (by simp [deadCount, deadTrace])
+          hhist (fun _ => hran) (by rw [hc]; rfl) (by simp [rootTrace])
+    · rename_i i t k hk
+      have h1 : Inv (emit { s with frames := { fr with kont := k, catching := t } :: rest } (.plainStart i)) :=
+        h.updTop (fr' := { fr with kont := k, catching := t }) [.plainStart i] hf0 rfl rfl rfl rfl rfl rfl
+          (by simp [Out.frame]) (by simp [regTrace]) (by simp [cleanupTraceOf]) (by simp [deadCount, deadTrace])
+          hhist (fun _ => hran) (by simp [emit, hc, Ctl.rootIsDone]) (by simp [rootTrace])
+      have hc1 : (emit { s with frames := { fr with kont := k, catching := t } :: rest } (.plainStart i)).ctl = .exec := hc
+      simp only []
+      split
+      · exact h1.leafDone _ _ _ (by rw [hc1]; rfl) (by rw [hc1]; simp)
+      · exact h1.ctlOnly [] rfl rfl rfl rfl (by simp) (by simp) rfl (fun _ => by rw [hc1]; rfl) rfl (by rw [hc1]; simp)
     · rename_i a l k hk
       exact h.updTop (fr' := { fr with kont := k, cleanups := (a, ckOf l, fr.sched) :: fr.cleanups, regd := a :: fr.regd })
           [.reg fr.id a] hf0 rfl rfl rfl rfl rfl rfl
@@ -590,7 +628,7 @@ theorem Inv.iter {s : St} (h : Inv s) (n : Nat) : Inv (iter specs n s) := by
 theorem Inv.settle {s : St} (h : Inv s) : Inv (settle specs s) := by
   rw [settle_eq_iter]; exact h.iter specs _
 
-theorem Inv.init (p : Prog) (b : Bool) (st : Bool := true) : Inv (St.init p b st) := by
+theorem Inv.init (p : Prog) (b : Bool) (st : Bool := true) (ad : Bool := false) : Inv (St.init p b st ad) := by
   constructor <;> simp [St.init, St.all, rootFrame, Ctl.exiting, Ctl.rootIsDone, rootTrace]
   · exact ⟨rfl, rfl, rfl⟩
 
@@ -620,10 +658,8 @@ theorem Inv.stopOpDone {s : St} (h : Inv s) : Inv (stopOpDone s) := by
     have hf : s.frames = [] := h.fin (by
       have : s.ctl = .waitJoin o := hc
       rw [this]; rfl)
-    exact h1.same [.root o] rfl rfl rfl rfl rfl (by simp [Out.frame]) (fun _ => Or.inr (by simp [hf])) (fun _ => hf)
-      (by
-        have : s.ctl = .waitJoin o := hc
-        simp [this, rootTrace])
+    have hc' : s.ctl = .waitJoin o := hc
+    exact h1.signal o hf (by simp [hc'])
   · exact h1
 
 theorem Inv.onStop {s : St} (h : Inv s) : Inv (onStop specs s) := by
@@ -644,7 +680,7 @@ theorem Inv.onStart {s : St} (h : Inv s) (hc : s.ctl = .idle) : Inv (onStart spe
   unfold Coro.onStart
   apply Inv.settle
   have key : ∀ s1 : St, Inv s1 → s1.ctl = .idle →
-      Inv (emit { s1 with ctl := .exec, frames := startFrames s1.frames } (.frameStart 0)) := by
+      Inv (emit { s1 with ctl := .exec, frames := startFrames s1.frames, tokRegs := if s.stoppable then 1 else 0 } (.frameStart 0)) := by
     intro s1 h1 hc1
     cases hf : s1.frames with
     | nil =>
@@ -691,6 +727,10 @@ theorem Inv.onRun {s : St} (h : Inv s) : Inv (onRun specs s) := by
 theorem Inv.onComplete {s : St} (h : Inv s) (i : Nat) (o : Outcome) : Inv (onComplete specs s i o) := by
   unfold Coro.onComplete
   split
+  · rename_i j hc
+    split
+    · exact (h.leafDone _ _ _ (by rw [hc]; rfl) (by rw [hc]; simp)).settle specs
+    · exact h
   · rename_i j hc
     split
     · exact (h.leafDone _ _ _ (by rw [hc]; rfl) (by rw [hc]; simp)).settle specs
@@ -775,8 +815,12 @@ theorem deliverStop_waitLeaf_prefix (s : St) (i : Nat) (hc : s.ctl = .waitLeaf i
 theorem step_outs_prefix (s : St) : s.outs <+: (step specs s).outs := by
   have hsh := schedHop_outs_prefix
   have hl := leafDone_outs_prefix
+  have hsg : ∀ (s : St) (o : Outcome), s.outs <+: (signal s o).outs := by
+    intro s o; unfold signal; simp only []; split <;> split <;> simp [emit, List.append_assoc]
   have hr : ∀ (s : St) (o : Outcome), s.outs <+: (rootDone s o).outs := by
-    intro s o; unfold rootDone; split <;> simp [emit]
+    intro s o; unfold rootDone; simp only []
+    split <;> split <;>
+      first | exact List.prefix_refl _ | exact hsg s o | exact hsg { s with tokRegs := 0 } o
   have he : ∀ (s : St) (x : Out), s.outs <+: (emit s x).outs := by intro s x; simp [emit]
   unfold step
   split
@@ -786,6 +830,11 @@ theorem step_outs_prefix (s : St) : s.outs <+: (step specs s).outs := by
     · simp [beginExit, emit]
     · simp [beginExit, emit]
     · split <;> simp
+    · split <;> simp
+    · simp only []
+      split
+      · refine List.IsPrefix.trans ?_ (hl _ _ _ _); simp [emit]
+      · simp [emit]
     · simp [emit]
     · simp only []
       split
@@ -820,7 +869,12 @@ theorem iter_outs_prefix (n : Nat) (s : St) : s.outs <+: (iter specs n s).outs :
 theorem settle_outs_prefix (s : St) : s.outs <+: (settle specs s).outs := by
   rw [settle_eq_iter]; exact iter_outs_prefix specs _ s
 
+theorem signal_outs_prefix (s : St) (o : Outcome) : s.outs <+: (signal s o).outs := by
+  unfold signal; simp only []; split <;> split <;> simp [emit, List.append_assoc]
+
 theorem stopOpDone_outs_prefix (s : St) : s.outs <+: (stopOpDone s).outs := by
-  unfold stopOpDone; simp only []; split <;> simp [emit]
+  unfold stopOpDone; simp only []; split
+  · exact signal_outs_prefix { s with stopOp := false } _
+  · exact List.prefix_refl _
 
 end Unifex.Coro
